@@ -35,7 +35,8 @@ def run_one(m, args):
                 res["error"] = f"pattern occurs {s.count(sub['old'])}x in {sub['file']}: {sub['old'][:60]!r}"
                 return res
             open(p, "w").write(s.replace(sub["old"], sub["new"]))
-        env = dict(os.environ, SHANGRLA_REPO=d, PYTHONDONTWRITEBYTECODE="1", VERIF_SEED=str(args.seed))
+        env = dict(os.environ, SHANGRLA_REPO=d, PYTHONDONTWRITEBYTECODE="1", VERIF_SEED=str(args.seed),
+                   VERIF_EVIDENCE_DIR=os.path.join(d, "evidence"), VERIF_FOUND_DIR=os.path.join(d, "found"))
         if args.tests:
             shutil.copytree(os.path.join(REPO, "tests"), os.path.join(d, "tests"))
             for f in ("pytest.ini", "setup.cfg", "pyproject.toml", "conftest.py"):
